@@ -4,14 +4,16 @@ One harness (h_hash) with thirteen parts; every part splits its work items over
 its workers deterministically (item index modulo nworkers), random cases are
 seeded by (VERIF_SEED, part, case index) so the same seed gives the same cases
 whatever the number of workers."""
-from vrun import Job
+from vrun import Job, with_alt_flavours
 
 LEVEL = 'exploration'
 RULE = ('hash: every partition of the first n bytes of a seed-derived message into <=3 updates (n<=nexh, '
         'out() after each update) for the 7 hash vtables, plus every length 0..1100 with a fresh random '
         'message under k random 1-6-part partitions with zero-length updates; state: save/restore at every '
         'block boundary; inject: random chaining value + count classes (2^29, 2^32, 2^61, 2^64 minus k blocks, '
-        'random) against the legacy OpenSSL contexts; multi: all 64 subsets; shake: every input length up to '
+        'random) against the legacy OpenSSL contexts; multi: all 64 subsets, and the same count classes with count and '
+        'chaining values written into the context fields; mgf1 also 256*hlen+{-1,0,1}, 257*hlen+1 output bytes; hmacct also '
+        '200 record-size triples (max 16384..17500, max-min in {0,1,255,256,300}); shake: every input length up to '
         '2 rates+3 and random, levels 128/256 vs EVP and all 24 levels vs a spec-level Keccak; hmac: 9 key-length '
         'classes x 7 hashes; hmacct: every triple min<=len<=max<=nexh for MD5/SHA-1/SHA-256 and sampled triples '
         'for all six; prf/hkdf/mgf1/hdrbg/adrbg: random cases with output lengths 0..1000. A case is distinct '
@@ -30,13 +32,17 @@ ASSUMPTIONS = [
     'set_state() is only judged for counts that are multiples of the block size (documented restriction) and, for '
     'MD5/SHA-1/SHA-224/SHA-256/MD5+SHA-1, total lengths below 2^61 bytes; SHA-384/512 below 2^64 bytes',
     'HMAC over MD5+SHA-1 is compared with OpenSSL HMAC(EVP_md5_sha1) (generic HMAC definition, 64-byte block)',
+    'multi-hash bit-length carries are reached by writing br_multihash_context.count / val_32 / val_64 (model-level: the header '
+    'declares the fields but says they are not supposed to be accessed directly); the layout (state() serialisation at val_32 + '
+    '0/16/36/68 bytes, val_64 + 0/64 bytes) is calibrated at run time against br_multihash_init(), a mismatch makes the run inconclusive',
 ]
 EVAL = ['cmp_total']
 DISTINCT = ['config']
 REQUIRED = ['cmp_digest', 'cmp_midout', 'cmp_set_state', 'cmp_state_count', 'cmp_inject', 'cmp_multihash',
             'cmp_shake', 'cmp_hmac', 'cmp_hmac_outct', 'cmp_prf', 'cmp_hkdf', 'cmp_mgf1', 'cmp_hmac_drbg',
             'cmp_aesctr_drbg', 'cmp_aesctr_drbg_cross', 'cmp_oid', 'cmp_determinism', 'cmp_unmodified',
-            'adrbg_forced_update_cases', 'ref_keccak_vs_evp', 'prf_evp_checked', 'hkdf_evp_checked']
+            'adrbg_forced_update_cases', 'ref_keccak_vs_evp', 'prf_evp_checked', 'hkdf_evp_checked',
+            'cmp_multihash_inject', 'mgf1_over_256_blocks', 'outct_record_size_triples']
 
 # part -> (workers, args) per tier
 QUICK = [
@@ -81,7 +87,7 @@ def jobs(tier, seed):
                 args += ['--' + k, v]
             out.append(Job('%s-w%d' % (part, i), 'h_hash', args, flavour='asan', libs=['-lcrypto'],
                            timeout=300 if tier == 'quick' else 2400))
-    return out
+    return with_alt_flavours(out, tier, seed)
 
 
 def coverage_extra(res, tier):
